@@ -26,6 +26,9 @@ def make_table(rng, tmp, idx):
     for j in range(rng.randrange(2, 5)):
         integer = rng.random() < 0.4
         vals = [rng.choice(eems.INTS) if integer else float(rng.choice(eems.QUARTERS)) for _ in range(n)]
+        if not integer and rng.random() < 0.3:
+            # decimals that are no binary fractions (sums of them round): measurements as they come, within [-1, 1] so that fuzzy chains stay in range
+            vals = [round(rng.uniform(-1, 1), rng.choice([1, 2, 3])) for _ in range(n)]
         if len(set(vals)) < 2:
             vals[0] = vals[0] + 1
         missing = None
@@ -171,6 +174,62 @@ def directed_models(ctx, tmp):
                 break
 
 
+
+def directed_listings(ctx, tmp):
+    """measured decimals (no binary fractions) made fuzzy and combined by every command that orders its inputs itself (maximum, minimum, the k truest or
+    falsest - all k up to all of them -, exclusive or), and plain fields by Minimum / Maximum: every listing of the inputs gives bit-identical results,
+    downstream commands included"""
+    import itertools
+    rng = ctx.rng
+    n = 9
+    cols = [[round(rng.uniform(-3, 3), rng.choice([1, 2, 3])) for _ in range(n)] for _c in range(4)]
+    with open(os.path.join(tmp, "dl.csv"), "w") as f:
+        f.write("a,b,c,d\n")
+        for i in range(n):
+            f.write(",".join(repr(c[i]) for c in cols) + "\n")
+    head = ['%s = EEMSRead(InFileName = "dl.csv", InFieldName = %s)' % (x.upper(), x) for x in "abcd"]
+    head += ["F%s = CvtToFuzzy(InFieldName = %s, TrueThreshold = %r, FalseThreshold = %r)" % (x, x, round(rng.uniform(0.5, 3), 2), round(rng.uniform(-3, -0.5), 2)) for x in "ABCD"]
+    fz = ["FA", "FB", "FC", "FD"]
+    combos = [("FuzzyOr", ""), ("FuzzyAnd", ""), ("FuzzyXOr", "")]
+    for k in (1, 2, 3, 4):
+        for tf in (1, -1):
+            combos.append(("FuzzySelectedUnion", ", TruestOrFalsest = %s, NumberToConsider = %d" % ("Truest" if tf == 1 else "Falsest", k)))
+    for cmd, extra in combos:
+        m = rng.choice([3, 4]) if "NumberToConsider = 4" not in extra else 4
+        if "NumberToConsider = 3" in extra:
+            m = rng.choice([3, 4])
+        ins = fz[:m]
+        ref = None
+        perms = list(itertools.permutations(ins))
+        for perm in perms:
+            src = "\n".join(head + ["R = %s(InFieldNames = [%s]%s)" % (cmd, ", ".join(perm), extra), "T = FuzzyNot(InFieldName = R)", "U = FuzzyUnion(InFieldNames = [R, FA])"]) + "\n"
+            out = run_real(src, tmp)
+            ctx.case("listing " + src, sample=None)
+            ctx.count("directed_listings")
+            if out["status"] != "ok":
+                ctx.fail("a well-typed model fails: %s" % out["status"], {"source": src})
+                break
+            if ref is None:
+                ref, ref_src = out, src
+                continue
+            d = same_run(ref, out, ["R", "T", "U"], exact_for={"R", "T", "U"})
+            if d:
+                ctx.fail("%s brings its inputs into its own order before computing, yet another listing of the same inputs changes results: %s" % (cmd, d), {"source": ref_src, "relisted": src})
+                break
+    for cmd in ("Minimum", "Maximum"):
+        ref = None
+        for perm in itertools.permutations("ABCD"):
+            src = "\n".join(head[:4] + ["R = %s(InFieldNames = [%s])" % (cmd, ", ".join(perm)), "S = Sum(InFieldNames = [R, A])"]) + "\n"
+            out = run_real(src, tmp)
+            ctx.count("directed_listings")
+            if ref is None:
+                ref, ref_src = out, src
+                continue
+            d = same_run(ref, out, ["R", "S"], exact_for={"R", "S"})
+            if d:
+                ctx.fail("%s: another listing of the same inputs changes results: %s" % (cmd, d), {"source": ref_src, "relisted": src})
+                break
+
 class Recording(object):
     def __init__(self):
         self.calls = []
@@ -227,7 +286,9 @@ def recorded(classes, rec):
             c.execute = o
 
 
-def run_real(source, tmp, classes=None, rec=None):
+def run_real(source, tmp, classes=None, rec=None, fault=None):
+    """fault = (path of a table, text to put there for the first run): the first run() meets a broken table and fails; the table is restored and
+    the SAME Program is run again"""
     from mpilot.program import Program
     import warnings
     out = {}
@@ -237,6 +298,22 @@ def run_real(source, tmp, classes=None, rec=None):
         old = numpy.seterr(all="ignore")
         try:
             p = Program.from_source(source, libraries=LIBS, working_dir=tmp)
+            if fault is not None:
+                good = open(fault[0]).read()
+                try:
+                    with open(fault[0], "w") as f_:
+                        f_.write(fault[1])
+                    try:
+                        if fault[2] is None:
+                            p.run()
+                        else:
+                            p.commands[fault[2]].result
+                        out["first"] = "ok"
+                    except BaseException as e1:
+                        out["first"] = progrun.classify(e1)
+                finally:
+                    with open(fault[0], "w") as f_:
+                        f_.write(good)
             p.run()
             out["status"] = "ok"
         except BaseException as e:
@@ -253,7 +330,13 @@ def run_real(source, tmp, classes=None, rec=None):
     return out
 
 
-def same_run(a, b, names):
+SYMMETRIC = {"Sum", "Multiply", "Minimum", "Maximum", "Mean", "WeightedSum", "WeightedMean", "FuzzyOr", "FuzzyAnd", "FuzzyUnion", "FuzzyWeightedUnion",
+             "FuzzySelectedUnion", "FuzzyXOr"}
+# commands that bring their inputs into an order of their own (maximum, minimum, sorting) before any arithmetic: bit-identical for every listing
+ORDER_CANONICAL = {"Minimum", "Maximum", "FuzzyOr", "FuzzyAnd", "FuzzySelectedUnion", "FuzzyXOr"}
+
+
+def same_run(a, b, names, exact_for=()):
     if (a["status"] == "ok") != (b["status"] == "ok"):
         return "outcome %s vs %s" % (a["status"], b["status"])
     if a["status"] != "ok":
@@ -269,7 +352,7 @@ def same_run(a, b, names):
         if ra[:3] != rb[:3]:
             return "%s: kind/type/shape %r vs %r" % (n, ra[:3], rb[:3])
         if ra[3] is not None:
-            fd = numeric.first_diff(ra[3], rb[3])
+            fd = numeric.first_diff(ra[3], rb[3]) if n not in exact_for else numeric.first_diff(ra[3], rb[3], 0)
             if fd:
                 return "%s: cell %d: %r vs %r" % ((n,) + fd)
     return None
@@ -360,6 +443,52 @@ def run(ctx):
             if d:
                 ctx.fail("results depend on the order of the commands in the file: %s" % d, {"source": sc.source, "permuted": Scenario(perm, wd=tmp, libs=LIBS).source})
                 break
+        # the inputs of a symmetric command listed in another order (weights alongside): the graph is the same graph.  Commands that bring their inputs into
+        # an order of their own before any arithmetic (maximum, minimum, sorting) give bit-identical results, and so does everything computed from them;
+        # sums in another order may round differently (compared within the tolerance)
+        for group, tol_ in ((ORDER_CANONICAL, 0), (SYMMETRIC - ORDER_CANONICAL, None)):
+            if ref["status"] != "ok":
+                break
+            re_cmds, changed = [], False
+            for (r_, c_, args_) in cmds:
+                d_ = dict(args_)
+                lst = d_.get("InFieldNames")
+                if c_ in group and isinstance(lst, list) and len(lst) > 1:
+                    perm_ = list(range(len(lst)))
+                    rng.shuffle(perm_)
+                    new_args = []
+                    for (an, av) in args_:
+                        if an == "InFieldNames" or (an == "Weights" and isinstance(av, list) and len(av) == len(lst)):
+                            av = [av[i] for i in perm_]
+                        new_args.append((an, av))
+                    changed = changed or perm_ != sorted(perm_)
+                    re_cmds.append((r_, c_, new_args))
+                else:
+                    re_cmds.append((r_, c_, args_))
+            if changed:
+                other = run_real(Scenario(re_cmds, wd=tmp, libs=LIBS).source, tmp)
+                ctx.count("list_order_twins" + ("_exact" if tol_ == 0 else ""))
+                d = same_run(ref, other, names, exact_for=set(names) if tol_ == 0 else ())
+                if d:
+                    ctx.fail("results depend on the order in which a symmetric command lists its inputs: %s" % d, {"source": sc.source, "relisted": Scenario(re_cmds, wd=tmp, libs=LIBS).source})
+        # a first run that meets a broken table (a cell that is no number) fails; the table is repaired and the same Program run again: the graph's values
+        if ref["status"] == "ok" and rng.random() < 0.6:
+            tp = os.path.join(tmp, table_path)
+            rows = open(tp).read().split("\n")
+            k_ = rng.randrange(1, len([r for r in rows if r]))
+            cells = rows[k_].split(",")
+            cells[rng.randrange(len(cells))] = "n/a"
+            broken = "\n".join(rows[:k_] + [",".join(cells)] + rows[k_ + 1:])
+            via = None if rng.random() < 0.6 else rng.choice([n_ for n_ in names])
+            other = run_real(sc.source, tmp, fault=(tp, broken, via))
+            ctx.count("fault_then_repair_models")
+            ctx.count("fault_first_outcome:" + ":".join(other.get("first", "?").split(":")[:2]))
+            if other.get("first", "").startswith("raw:"):
+                ctx.fail("a table with a cell that is no number makes run() raise %s" % other["first"], {"source": sc.source, "broken_table": broken})
+            d = same_run(ref, other, names)
+            if d:
+                ctx.fail("after a run that failed on a broken table, with the table repaired, running the same Program again does not give the graph's values: %s (first run: %s)" % (d, other.get("first")),
+                         {"source": sc.source, "broken_table": broken, "first_access": via})
         # metadata is inert
         meta_cmds = [(r, c, [a for a in args if a[0] != "Metadata"] + ([("Metadata", {"Description": "note %d" % j, "Color": "red"})] if rng.random() < 0.6 else []))
                      for j, (r, c, args) in enumerate(cmds)]
@@ -381,6 +510,7 @@ def run(ctx):
                 ctx.fail("results change when other commands also consume intermediate results: %s" % d, {"source": sc.source, "with_consumers": Scenario(extra, wd=tmp, libs=LIBS).source})
     deep_chain(ctx, tmp)
     directed_models(ctx, tmp)
+    directed_listings(ctx, tmp)
     answers = model.ask(lines)
     # independent reference definitions (exact arithmetic, written without looking at the model): they decide, on the implementation, whether a
     # command's result inside a running program equals the mathematical evaluation of its inputs
